@@ -519,6 +519,12 @@ def main(argv=None):
                 repro = (j, r)
                 break
         if repro is None:
+            if js and js[0].meta[1]['kind'] == 'nonfinite':
+                # inf / NaN arose and the real code dealt with it
+                if os.environ.get('VERIF_DEBUG'):
+                    print('nonfinite dismissed:', js[0].meta[1]['witness'],
+                          [j.result for j in js][:2], file=sys.stderr)
+                continue
             nonrepro.append((key, [j.result for j in js]))
             continue
         validated += 1
